@@ -18,7 +18,7 @@ Import ListNotations.
 (* ------------------------------------------------------------------------------------- *)
 (* exceptions are values                                                                  *)
 (* ------------------------------------------------------------------------------------- *)
-Inductive exn := TypeError | ZeroDivisionError | StopIteration | AttributeError.
+Inductive exn := TypeError | ZeroDivisionError | StopIteration | AttributeError | ValueError.
 Inductive res (A : Type) : Type := Ok (a : A) | Raise (e : exn).
 Arguments Ok {A} a.
 Arguments Raise {A} e.
@@ -26,7 +26,7 @@ Arguments Raise {A} e.
 Definition exn_eqb (a b : exn) : bool :=
   match a, b with
   | TypeError, TypeError | ZeroDivisionError, ZeroDivisionError
-  | StopIteration, StopIteration | AttributeError, AttributeError => true
+  | StopIteration, StopIteration | AttributeError, AttributeError | ValueError, ValueError => true
   | _, _ => false
   end.
 
@@ -376,6 +376,18 @@ Definition depth_next (adaptive : bool) (max_depth max_stag cur stagn : Z) : Z *
   else if Z.leb max_stag stagn then ((cur + 1)%Z, (cur + 1)%Z)
   else (cur, cur).
 
+(* PopulationalOptimizer.get_structure_unique_population: size of the population handed to the
+   evaluator when `unique` structurally distinct individuals remain:
+     min_pop_size = min(MIN_POP_SIZE, max_pop_size) if max_pop_size else MIN_POP_SIZE
+     if len(unique) < min_pop_size: extend to min_pop_size *)
+Definition diversity_target (maxp : option Z) : Z :=
+  match truthy_max maxp with Some m => Z.min MIN_POP_SIZE m | None => MIN_POP_SIZE end.
+Definition diversity_refill (maxp : option Z) (unique : Z) : Z :=
+  if Z.ltb unique (diversity_target maxp) then diversity_target maxp else unique.
+(* before the repair dbd27a2 the refill ignored max_pop_size *)
+Definition diversity_refill_pinned (unique : Z) : Z :=
+  if Z.ltb unique MIN_POP_SIZE then MIN_POP_SIZE else unique.
+
 (* ------------------------------------------------------------------------------------- *)
 (* GOLEM(...) facade: distribution of keyword arguments by ApiParams                      *)
 (* ------------------------------------------------------------------------------------- *)
@@ -419,13 +431,21 @@ Fixpoint dict_set (k : string) (v : aval) (d : list (string * aval)) : list (str
   | (k', v') :: r => if String.eqb k k' then (k', v) :: r else (k', v') :: dict_set k v r
   end.
 
-(* timeout if isinstance(timeout, timedelta) else timedelta(minutes=timeout) *)
+(* timeout if timeout is None or isinstance(timeout, timedelta) else timedelta(minutes=timeout) *)
 Definition to_timedelta (v : aval) : res aval :=
   match v with
+  | ANone => Ok ANone
   | ADelta m => Ok (ADelta m)
   | ANum q => Ok (ADelta q)
-  | _ => Raise TypeError
+  | AOpaque _ => Raise TypeError
   end.
+
+(* golem.utilities.utilities.determine_n_jobs with cpu = cpu_count() *)
+Definition determine_n_jobs (cpu n : Z) : res Z :=
+  if Z.ltb cpu n then Ok cpu
+  else if Z.leb n 0
+       then (if Z.leb n (- cpu - 1) || Z.eqb n 0 then Raise ValueError else Ok (cpu + 1 + n)%Z)
+       else Ok n.
 
 Inductive dest := DGp | DGen | DReq | DCommon.
 
@@ -447,18 +467,22 @@ Record api_out := {
   to_req : list (string * aval);
   to_common : list (string * aval);
   dynamic_req : bool;             (* DynamicGraphRequirements instead of GraphRequirements *)
-  attr_n_jobs : aval }.           (* ApiParams.n_jobs: kept on the ApiParams object only *)
+  attr_n_jobs : aval }.           (* ApiParams.n_jobs *)
 
 Definition select (d : dest) (input : list (string * aval)) : list (string * aval) :=
   filter (fun kv => dest_eqb (dest_of (fst kv)) d) input.
 
 (* GOLEM(timeout=..., n_jobs=..., **kwargs): `timeout` and `n_jobs` are named parameters of the
-   facade, everything else is the dictionary handed to ApiParams *)
-Definition facade (timeout n_jobs : aval) (kwargs : list (string * aval)) : res api_out :=
+   facade, everything else is the dictionary handed to ApiParams, which adds
+   input['timeout'] = (timedelta or None) and input['n_jobs'] = determine_n_jobs(n_jobs) *)
+Definition facade (cpu : Z) (timeout : aval) (n_jobs : Z) (kwargs : list (string * aval)) : res api_out :=
+  match determine_n_jobs cpu n_jobs with
+  | Raise e => Raise e
+  | Ok nj =>
   match to_timedelta timeout with
   | Raise e => Raise e
   | Ok td =>
-      let input := dict_set "timeout" td kwargs in
+      let input := dict_set "n_jobs" (ANum (inject_Z nj)) (dict_set "timeout" td kwargs) in
       let after_gp_gen := filter (fun kv => negb (dest_eqb (dest_of (fst kv)) DGp)
                                          && negb (dest_eqb (dest_of (fst kv)) DGen)) input in
       Ok {| to_gp := select DGp input;
@@ -466,7 +490,8 @@ Definition facade (timeout n_jobs : aval) (kwargs : list (string * aval)) : res 
             to_req := select DReq input;
             to_common := select DCommon input;
             dynamic_req := existsb (fun kv => negb (mem_s (fst kv) req_fields)) after_gp_gen;
-            attr_n_jobs := n_jobs |}
+            attr_n_jobs := ANum (inject_Z nj) |}
+  end
   end.
 
 (* the limits and resources the property speaks about, with the object they are documented for *)
@@ -599,6 +624,7 @@ Inductive ucase :=
 | UAdaptive (pop_size : Z) (maxp : option Z) (calls : list (Z * bool * bool * bool))
             (obs_init : res Z) (obs : list (res Z))
 | UDepth (adaptive : bool) (start max_depth max_stag : Z) (stags : list Z) (obs : list Z)
+| UDiversity (maxp : option Z) (unique : Z) (obs : Z)    (* size handed to the evaluator by the diversity check *)
 | UTables (gp gen common req : list string).
 
 Definition subset_s (a b : list string) : bool := forallb (fun k => mem_s k b) a.
@@ -627,6 +653,7 @@ Definition uagree (c : ucase) : bool :=
          end
   | UDepth adaptive start max_depth max_stag stags obs =>
       list_eqb Z.eqb (depth_run adaptive max_depth max_stag start stags) obs
+  | UDiversity maxp unique obs => Z.eqb (diversity_refill maxp unique) obs
   | UTables gp gen common req =>
       same_set_s gp gp_fields && same_set_s gen gen_fields
       && same_set_s common common_fields && same_set_s req req_fields
@@ -680,6 +707,8 @@ Definition uholds (c : ucase) : bool :=
          end
   | UDepth adaptive start max_depth max_stag stags obs =>
       forallb (fun d => Z.leb d (Z.max start max_depth)) obs
+  | UDiversity maxp unique obs =>
+      match truthy_max maxp with Some m => implb (Z.leb unique m) (Z.leb obs m) | None => true end
   | _ => true
   end.
 
@@ -834,13 +863,15 @@ Definition rcheck (r : orun) : list bool :=
 
 (* ---- observed GOLEM(...) facade ---- *)
 Record oapi := {
+  a_cpu : Z;                                         (* joblib.cpu_count() on the machine of the run *)
   a_timeout : aval;
-  a_njobs : aval;
+  a_njobs : Z;
   a_kwargs : list (string * aval);
   a_raised : option exn;                             (* constructing GOLEM raised *)
   a_where : list (string * (bool * bool * bool));    (* per given key: value found in gp / gen / requirements *)
   a_req_timeout : option aval;                       (* requirements.timeout *)
-  a_njobs_in : bool * bool * bool;                   (* the given n_jobs found in gp / gen / requirements *)
+  a_req_njobs : option aval;                         (* requirements.n_jobs *)
+  a_njobs_elsewhere : bool;                          (* an n_jobs attribute on the gp / generation parameter objects *)
   a_dynamic : bool }.
 
 Definition tri_eqb (a b : bool * bool * bool) : bool :=
@@ -849,8 +880,10 @@ Definition tri_eqb (a b : bool * bool * bool) : bool :=
 Definition found (o : api_out) (d : dest) (k : string) (v : aval) : bool :=
   opt_aval_eqb (lookup_in d o k) (Some v).
 
+Definition is_some {A : Type} (o : option A) : bool := match o with Some _ => true | None => false end.
+
 Definition aagree (a : oapi) : bool :=
-  match facade (a_timeout a) (a_njobs a) (a_kwargs a), a_raised a with
+  match facade (a_cpu a) (a_timeout a) (a_njobs a) (a_kwargs a), a_raised a with
   | Raise e, Some e' => exn_eqb e e'
   | Ok o, None =>
       list_eqb2 (fun kv w => String.eqb (fst kv) (fst w)
@@ -858,8 +891,8 @@ Definition aagree (a : oapi) : bool :=
                                            found o DReq (fst kv) (snd kv)) (snd w))
                   (a_kwargs a) (a_where a)
       && opt_aval_eqb (lookup "timeout" (to_req o)) (a_req_timeout a)
-      && tri_eqb (found o DGp "n_jobs" (a_njobs a), found o DGen "n_jobs" (a_njobs a),
-                  found o DReq "n_jobs" (a_njobs a)) (a_njobs_in a)
+      && opt_aval_eqb (lookup "n_jobs" (to_req o)) (a_req_njobs a)
+      && Bool.eqb (is_some (lookup "n_jobs" (to_gp o)) || is_some (lookup "n_jobs" (to_gen o))) (a_njobs_elsewhere a)
       && Bool.eqb (dynamic_req o) (a_dynamic a)
   | _, _ => false
   end.
@@ -870,9 +903,18 @@ Definition exactly_one (w : bool * bool * bool) : bool :=
   | _ => false
   end.
 
+(* a documented worker count: 1 .. cpu, or -1 .. -cpu counted from the top *)
+Definition njobs_documented (cpu n : Z) : bool := (Z.leb 1 n && Z.leb n cpu) || (Z.leb (- cpu) n && Z.leb n (-1)).
+
 (* clauses on the observed facade: accepted; every given limit key sits unchanged in exactly one
-   parameter object; the timeout arrives as the same duration; the worker count arrives *)
-Definition a_accepts (a : oapi) : bool := match a_raised a with None => true | Some _ => false end.
+   parameter object; the timeout arrives as the same duration (None stays None); the worker count
+   arrives in the requirements (k unchanged for 1 <= k <= cpu, -1 = all cpus, -2 = all but one ...) *)
+Definition a_accepts (a : oapi) : bool :=
+  match a_raised a, a_timeout a with
+  | None, _ => true
+  | Some _, AOpaque _ => true
+  | Some _, _ => negb (njobs_documented (a_cpu a) (a_njobs a))
+  end.
 Definition a_keys (a : oapi) : bool :=
   forallb (fun w => implb (mem_s (fst w) (map fst limit_keys)) (exactly_one (snd w))) (a_where a).
 Definition a_timeout_ok (a : oapi) : bool :=
@@ -880,10 +922,19 @@ Definition a_timeout_ok (a : oapi) : bool :=
   | Some _, _ => true
   | None, ANum q => opt_aval_eqb (a_req_timeout a) (Some (ADelta q))
   | None, ADelta q => opt_aval_eqb (a_req_timeout a) (Some (ADelta q))
-  | None, _ => true
+  | None, ANone => opt_aval_eqb (a_req_timeout a) (Some ANone)
+  | None, AOpaque _ => true
   end.
 Definition a_njobs_ok (a : oapi) : bool :=
-  match a_raised a with Some _ => true | None => exactly_one (a_njobs_in a) end.
+  match a_raised a with
+  | Some _ => true
+  | None =>
+      negb (a_njobs_elsewhere a)
+      && implb (Z.leb 1 (a_njobs a) && Z.leb (a_njobs a) (a_cpu a))
+               (opt_aval_eqb (a_req_njobs a) (Some (ANum (inject_Z (a_njobs a)))))
+      && implb (Z.leb (- a_cpu a) (a_njobs a) && Z.leb (a_njobs a) (-1))
+               (opt_aval_eqb (a_req_njobs a) (Some (ANum (inject_Z (a_cpu a + 1 + a_njobs a)))))
+  end.
 
 Definition aholds (a : oapi) : bool := a_accepts a && a_keys a && a_timeout_ok a && a_njobs_ok a.
 Definition acheck (a : oapi) : list bool := [aagree a; a_accepts a; a_keys a; a_timeout_ok a; a_njobs_ok a].
